@@ -21,6 +21,9 @@ pub struct LogModel {
     pub first_retained: u64,
     pub dedup: bool,
     pub ids: HashSet<u128>,
+    /// ids accepted before the last purge: whether the server still remembers them is not fixed by
+    /// the property (the purge keeps the in-memory deduplicator, a restart rebuilds it from the log)
+    pub maybe_ids: HashSet<u128>,
     pub retention_seen: bool,
 }
 
@@ -49,7 +52,35 @@ impl LogModel {
         n
     }
 
+    /// Like `accept`, for batches that repeat ids from before a purge: `stored` tells whether the
+    /// message with that payload is in the log now. Either outcome is accepted for such a message -
+    /// the full-log check that follows still pins its offset and order - and remembered afterwards.
+    pub fn accept_observed(&mut self, batch: &[Sent], stored: &dyn Fn(&[u8]) -> bool) -> usize {
+        let mut n = 0;
+        for s in batch {
+            if self.dedup {
+                if self.ids.contains(&s.id) {
+                    continue;
+                }
+                if self.maybe_ids.remove(&s.id) && !stored(&s.payload) {
+                    self.ids.insert(s.id);
+                    continue;
+                }
+                self.ids.insert(s.id);
+            }
+            self.msgs.push(MMsg { id: s.id, payload: s.payload.clone(), has_headers: s.has_headers, ts: None, checksum: None, headers: None });
+            n += 1;
+        }
+        n
+    }
+
+    pub fn has_ambiguous(&self, batch: &[Sent]) -> bool {
+        self.dedup && batch.iter().any(|s| self.maybe_ids.contains(&s.id) && !self.ids.contains(&s.id))
+    }
+
     pub fn purge(&mut self) {
+        let old: Vec<u128> = self.ids.drain().collect();
+        self.maybe_ids.extend(old);
         self.msgs.clear();
         self.first_retained = 0;
         self.retention_seen = false;
